@@ -144,6 +144,9 @@ def r1(R1, cfg, F, hr):
                 continue
             ok = all(x.callee.args == ['T'] for x in tid)
             core = [c for c in b.calls() if c.callee and (core_of(c.callee.best) or core_of(c.callee.defp))]
+            if op == 'contains' and not core and not F.body('anycache::CacheExt::_contains'):
+                # (`_contains::<T>(id)`, a one-line helper, written into its callers: they ask `Cache::contains` themselves)
+                core = [c for c in b.calls() if c.callee and c.callee.defp == 'anycache::Cache::contains']
             ok = ok and len(core) == 1 and b.access_path(core[0].args[1]) == ['arg2'] and b.access_path(core[0].args[2]) in [['call@bb%d' % x.bb] for x in tid]
             R1.check(ok, cfg, b.path, 'passes-TypeId::of::<T>-and-id', '`%s` must pass its id parameter and TypeId::of::<T>() to the map' % b.path, b.loc())
         for op, dirty in (('load_dir', 'dirs::Directory<T>'), ('load_rec_dir', 'dirs::RecursiveDirectory<T>')):
@@ -241,6 +244,10 @@ def r3(R3, cfg, F):
               '<T as anycache::Cache>::contains', 'asset::load_and_record', 'anycache::CacheExt::_get_cached',
               'anycache::CacheExt::_contains', 'anycache::CacheExt::_load_owned'):
         if not F.body(p):
+            if p == 'anycache::CacheExt::_contains' and any(
+                    c.callee and c.callee.defp == 'anycache::Cache::contains'
+                    for fb in [F.body(q + 'contains') for q in FRONT.values()] if fb for c in fb.calls()):
+                continue          # written into the front-ends' `contains` (C02.R1 checks what they pass and reach)
             R3.missing(cfg, p)
             continue
         reach = F.reach([p])
@@ -316,10 +323,15 @@ def r4(R4, cfg, F):
 
 
 def r5(R5, cfg, F):
+    def body_of(m, meth):
+        # (`contains_key` may be `self.get(id, type_id).is_some()`: the sibling is written in place; C01.R8 decides that
+        # the answer is "the look-up found an entry")
+        p = '<%s as anycache::AssetMap>::%s' % (m, meth)
+        return F.view(p, ['<%s as anycache::AssetMap>::get' % m]) if meth == 'contains_key' else F.body(p)
     for meth in ('get', 'insert', 'contains_key'):
         ops = {}
         for m in ('cache::AssetMap', 'local_cache::AssetMap'):
-            b = F.body('<%s as anycache::AssetMap>::%s' % (m, meth))
+            b = body_of(m, meth)
             if not b:
                 R5.missing(cfg, '%s::%s' % (m, meth))
                 continue
@@ -331,12 +343,12 @@ def r5(R5, cfg, F):
             if meth == 'insert':   # or_insert / or_insert_with / match on the entry are the same keep-first operation
                 same = all([k for _, k in v if k != 'READ'] == [k for _, k in want] for v in vals)
             else:
-                same = vals[0] == vals[1] == want
+                same = vals[0] == vals[1] and (vals[0] == want or (meth == 'contains_key' and vals[0] == [('get', 'READ')]))
             R5.check(same, cfg, 'anycache::AssetMap::' + meth, 'both-impls-use-' + '+'.join(n for n, _ in want),
                      'the two AssetMap impls must implement `%s` with the same map operation %s; found %s' % (meth, want, ops))
             # key arguments
             for m in ops:
-                b = F.body('<%s as anycache::AssetMap>::%s' % (m, meth))
+                b = body_of(m, meth)
                 if meth in ('get', 'contains_key'):
                     kc = [c for c in b.calls() if c.callee and c.callee.best.endswith("BorrowedKey::<'a>::new_with")]
                     ok = len(kc) == 1 and b.access_path(kc[0].args[0]) == ['arg2'] and b.access_path(kc[0].args[1]) == ['arg3']
